@@ -135,6 +135,7 @@ impl Typed for C25 {
                     return;
                 }
             };
+            crate::fw::rt::settle_after_bind().await;
             for (i, (gap, op)) in case.ops.iter().enumerate() {
                 tokio::time::sleep(Duration::from_millis(*gap)).await;
                 ctx.ev(format!("op{i} {op:?}"));
